@@ -201,13 +201,15 @@ def make_cluster_harness(cfg, tw):
 
     def harness():
         eng = core.engine()
-        D = [[0.0] * n for _ in range(n)]
+        rows = cfg.get("idx")         # sample identifiers that differ from positions (I_train != arange)
+        M = (max(rows) + 1) if rows else n
+        D = [[0.0] * M for _ in range(M)]
         labels = models.sym_labels(eng, n, K, two_classes=False)
         if model == "knn":
             opf = knn_mod.KNNSupervisedOPF(max_k=max(k, 1))
         else:
             opf = uns_mod.UnsupervisedOPF(min_k=1, max_k=max(k, 1))
-        g, args = build_knn_graph(tw, "fn", n, D, labels)
+        g, args = build_knn_graph(tw, "pre" if rows else "fn", n, D, labels, idx=rows)
         opf.subgraph = g
         dens = [eng.real("rho%d" % i) for i in range(n)]
         eng.assume(z3.And([z3.And(x.e >= 1, x.e <= MAX_DENSITY) for x in dens]))
